@@ -7,7 +7,7 @@ No hook in /repo: SQL statements are captured with sqlite3's set_trace_callback,
 provider opens through a proxy for the `sqlite` name in pony.orm.dbproviders.sqlite."""
 import os, queue, re, sys, threading
 
-STEP_TIMEOUT = float(os.environ.get('VERIF_STEP_TIMEOUT', '20'))
+STEP_TIMEOUT = float(os.environ.get('VERIF_STEP_TIMEOUT', '60'))
 
 
 class Stuck(Exception):
